@@ -40,7 +40,7 @@ def required_cells(tier):
         for r in kinds:
             req["pair:%s,%s->%s" % (a, b, r)] = 2 if q else 30
     for g in ("shared-features", "translated-copy", "scaled-copy", "coplanar", "on-face", "random", "rotated", "small-integer-boxes", "strictly-nested",
-              "common-part-is-the-minus1-minus2-slab-cube"):
+              "common-part-is-the-minus1-minus2-slab-cube", "inscribed"):
         req["gen:" + g] = 10 if q else 200
     for hc in ("used-then-moved/receiver", "used-then-moved/returned", "moved/receiver"):
         req["pose:history/" + hc] = 30
